@@ -19,13 +19,15 @@ def to_lines(code):
             out.append(dict(k="l", name=l["name"]))
         elif k == "d":
             out.append(dict(k="d"))
+        elif k == "a":
+            out.append(dict(k="a", text="NOP", nb=1))
         else:
             out.append(dict(k="c", text="other"))
     return out
 
 
 def shape(lines):
-    return [(l["k"], l.get("mn", ""), l.get("op", l.get("name", "")) or "", bool(l.get("prot", False))) for l in lines]
+    return [(l["k"], l.get("mn", ""), l.get("op", l.get("name", "")) or "", bool(l.get("prot", False))) for l in lines if l["k"] != "a"] + [("asm", sum(1 for l in lines if l["k"] == "a"))]
 
 
 def run(tier, name, maxlen, full_len, emit_mod, cap):
